@@ -104,7 +104,9 @@ theorem cr_pushToBlock2 (P : Params) (st : St) (p : Pkt) {st' : St} {b : Bool}
     · split at h
       · split at h
         · simp at h
-        · simp at h; rw [← h.1]; exact cr_complete _
+        · simp at h; rw [← h.1]; split
+          · exact cr_complete _
+          · exact CR.refl _
       · split at h
         · simp at h; rw [← h.1]; exact CR.refl _
         · split at h
